@@ -670,11 +670,30 @@ def run(ctx: Ctx) -> None:
             tm = track_scales(Sweep(width, freeze))
             x0 = torch.randn(4 + wi, 6)
             xp, xt = x0.clone().requires_grad_(True), x0.clone().requires_grad_(True)
-            yp, yt = plain(xp), tm(xt)
+            if wi % 2 == 0:
+                # the tracked module sits inside a larger computation: its input is the output of an upstream layer (a
+                # non-leaf tensor) and, every other time, also feeds a skip connection around it
+                torch.manual_seed(500 + wi)
+                stem_p = nn.Linear(6, 6)
+                torch.manual_seed(500 + wi)
+                stem_t = nn.Linear(6, 6)
+                hp, ht = stem_p(xp), stem_t(xt)
+                yp, yt = plain(hp), tm(ht)
+                out_p = yp
+                if wi % 4 == 0:
+                    yp, yt = yp + hp, yt + ht
+            else:
+                stem_p = stem_t = None
+                yp, yt = plain(xp), tm(xt)
+                out_p = yp
             yp.sum().backward()
             yt.sum().backward()
             if not torch.equal(yp, yt) or not torch.equal(xp.grad, xt.grad):
                 ctx.violation("C18:outputs", "outputs / input gradients differ with tracking", key)
+            if stem_p is not None and any((a_.grad is None) != (b_.grad is None) or (a_.grad is not None and not torch.equal(a_.grad, b_.grad))
+                                          for a_, b_ in zip(stem_p.parameters(), stem_t.parameters())):
+                ctx.violation("C18:gradients", "gradients of the layer that produced the tracked module's input differ with tracking",
+                              key, {"upstream_grads_tracked": [b_.grad is not None for b_ in stem_t.parameters()]})
             gp = {n_: p_.grad for n_, p_ in plain.named_parameters()}
             gt = {n_.replace("_orig_mod.", ""): p_.grad for n_, p_ in tm.named_parameters()}
             if any((gp[n_] is None) != (gt.get(n_) is None) or (gp[n_] is not None and not torch.equal(gp[n_], gt[n_])) for n_ in gp):
@@ -683,9 +702,9 @@ def run(ctx: Ctx) -> None:
                               {n_: [gp[n_] is not None, gt.get(n_) is not None] for n_ in gp})
             g_ = tm.scales_graph()
             recs = [n for n in g_.nodes if n.meta.get("metrics") is not None]
-            hidden = torch.relu(plain.l1(x0)).detach()
+            hidden = torch.relu(plain.l1(x0 if stem_p is None else stem_p(x0))).detach()
             if not any(same_stats(n.meta["metrics"].fwd, stats(hidden)) is None for n in recs) or \
-                    not any(same_stats(n.meta["metrics"].fwd, stats(yp.detach())) is None for n in recs):
+                    not any(same_stats(n.meta["metrics"].fwd, stats(out_p.detach())) is None for n in recs):
                 ctx.violation("C18:not-instrumented", "a tracked instance recorded no metrics for the tensors that flowed through "
                               "it (instance number %d of its class in this process)" % wi, key, {"recorded_nodes": len(recs)})
             if freeze:
